@@ -265,18 +265,24 @@ fn uintvector_mixed_case(cx: &mut Ctx, vals: &[u32], split: usize) {
     }
 }
 
-fn uintvector_case(cx: &mut Ctx, vals: &[u32], by_push: bool, force_coq: bool, rng: &mut Rng) {
+/// `start` (push only): 0 UintVector::new(), 1 with_capacity(n / 2), 2 Default::default(), 3 with_capacity(0) - the model knows new() only,
+/// and all of them have to behave like it
+fn uintvector_case(cx: &mut Ctx, vals: &[u32], by_push: bool, force_coq: bool, rng: &mut Rng, start: u32) {
     let cell = if by_push { "UintVector/push" } else { "UintVector/build_from" };
     cx.sum.eval(cell, &format!("{} {:?}", cell, vals), vals.len() >= 2);
     cx.sum.cell_status(cell, if cx.model_uintvec { "M+S" } else { "S-only" });
-    let cj = json!({"cell": "uintvector", "push": by_push, "values": vals});
+    let cj = json!({"cell": "uintvector", "push": by_push, "start": start, "values": vals});
     let n = vals.len();
+    if by_push { cx.sum.dist(&format!("uintvector_start_{}", start % 4)); }
     let r = guarded(|| {
         let mut mid: Vec<(usize, usize, Option<u32>, Option<u32>)> = vec![];
         let uv = if by_push {
-            let mut u = UintVector::new();
+            let mut u = match start % 4 { 0 => UintVector::new(), 1 => UintVector::with_capacity(n / 2), 2 => UintVector::default(), _ => UintVector::with_capacity(0) };
+            if !u.is_empty() || u.get(0).is_some() { return Err("a new vector is not empty".to_string()); }
             for (k, &v) in vals.iter().enumerate() {
                 u.push(v).map_err(|e| format!("{:?}", e))?;
+                // the statistics calls between the pushes must not disturb anything
+                if k % 5 == 0 { let _ = (u.compression_ratio(), u.memory_usage()); }
                 // incremental construction: the prefix must be readable after every push (sampled)
                 if k % 7 == 0 || (k + 1) % 64 <= 1 || k + 1 == n { let j = (k * 5 + 3) % (k + 1); mid.push((k, u.len(), u.get(j), u.get(k + 1))); }
             }
@@ -429,10 +435,10 @@ fn run_one(cx: &mut Ctx, c: &Value, rng: &mut Rng) {
         Some("sorted") => {
             let cfg = if let Some(a) = c["cfg"].as_array() { sorted::SCfg { log2: a[0].as_u64().unwrap_or(6) as u8, ow: a[1].as_u64().unwrap_or(16) as u8, sw: a[2].as_u64().unwrap_or(32) as u8, simd: a[3].as_u64().unwrap_or(1) != 0 } }
                       else { sorted::preset(c["preset"].as_u64().unwrap_or(0) as usize) };
-            sorted::sorted_case(cx, cfg, &parse_u64s(&c["values"]), true)
+            sorted::sorted_case_via(cx, cfg, &parse_u64s(&c["values"]), true, c["via"].as_u64().unwrap_or(0) as u32)
         }
         Some("uintvector_mixed") => uintvector_mixed_case(cx, &parse_u64s(&c["values"]).iter().map(|&x| x as u32).collect::<Vec<_>>(), c["split"].as_u64().unwrap_or(0) as usize),
-        Some("uintvector") => uintvector_case(cx, &parse_u64s(&c["values"]).iter().map(|&x| x as u32).collect::<Vec<_>>(), c["push"].as_bool().unwrap_or(false), true, rng),
+        Some("uintvector") => uintvector_case(cx, &parse_u64s(&c["values"]).iter().map(|&x| x as u32).collect::<Vec<_>>(), c["push"].as_bool().unwrap_or(false), true, rng, c["start"].as_u64().unwrap_or(0) as u32),
         Some("zip") => { let mode = c["mode"].as_u64().map(|m| m as u32).unwrap_or(if c["push"].as_bool().unwrap_or(false) { 1 } else { 0 }); zip_case(cx, &parse_u64s(&c["values"]), mode, true) }
         Some("min0typed") => { let v: Vec<i64> = c["values"].as_array().unwrap().iter().map(|x| x.as_str().unwrap_or("0").parse::<i64>().unwrap_or(0)).collect(); min0_typed_case(cx, &v, c["signed"].as_bool().unwrap_or(false), true) }
         Some("intvec") => {
@@ -498,12 +504,24 @@ pub fn run(args: &Args) {
     intvec::enum_small::<u16>(&mut cx, &mut rng); intvec::enum_small::<i16>(&mut cx, &mut rng);
     intvec::enum_small::<u32>(&mut cx, &mut rng); intvec::enum_small::<i32>(&mut cx, &mut rng);
     intvec::enum_small::<u64>(&mut cx, &mut rng); intvec::enum_small::<i64>(&mut cx, &mut rng);
+    macro_rules! each_type { ($f:ident) => { intvec::$f::<u8>(&mut cx, &mut rng); intvec::$f::<i8>(&mut cx, &mut rng); intvec::$f::<u16>(&mut cx, &mut rng); intvec::$f::<i16>(&mut cx, &mut rng);
+        intvec::$f::<u32>(&mut cx, &mut rng); intvec::$f::<i32>(&mut cx, &mut rng); intvec::$f::<u64>(&mut cx, &mut rng); intvec::$f::<i64>(&mut cx, &mut rng); }; }
+    each_type!(minmax_position_family);
+    each_type!(analysis_threshold_family);
     // the full analysis (more than 10000 elements), replayed in the model
     match rng.below(4) { 0 => intvec::full_analysis_case::<u16>(&mut cx, &mut rng), 1 => intvec::full_analysis_case::<u32>(&mut cx, &mut rng),
                          2 => intvec::full_analysis_case::<i32>(&mut cx, &mut rng), _ => intvec::full_analysis_case::<u64>(&mut cx, &mut rng) }
     // sizes across 2^16 / 2^20 and the 64 KiB marks, described by (container, kind, n, seed)
     hist::gen_big(&mut cx, &mut rng);
     if th { for _ in 0..4 { hist::gen_big(&mut cx, &mut rng); } }
+    // UintVector: a bulk-built prefix of each layout (raw: fewer than 4 / incompressible; min-max; run length), continued by pushes across the
+    // 64-value recompression marks whose values make the recompression change the layout
+    for pk in 0..4u32 { for &split in &[1usize, 3, 4, 5, 63, 64, 65, 130] { for &np in &[1usize, 63, 64, 65, 128, 129] { for tk in 0..3u32 {
+        let pre = |k: usize| -> u32 { match pk { 0 => (k as u32).wrapping_mul(0x9E37_79B1) ^ 0x8000_0000, 1 => 1000 + (k as u32 * 7) % 200, 2 => 40 + (k / 9) as u32, _ => 4_000_000_000 + (k % 3) as u32 } };
+        let tail = |k: usize| -> u32 { match tk { 0 => if k % 2 == 0 { u32::MAX } else { 0 }, 1 => 77, _ => pre(split + k) } };
+        let vals: Vec<u32> = (0..split).map(|k| pre(k)).chain((0..np).map(|k| tail(k))).collect();
+        uintvector_mixed_case(&mut cx, &vals, split);
+    } } } }
     let nh = if th { 30000 } else { 2000 };
     for i in 0..nh {
         let ops = gen_history(&mut rng, i % 2 == 1);
@@ -526,8 +544,8 @@ pub fn run(args: &Args) {
             4 => (rng.below(1000) as u32) << (rng.below(22) as u32),
             5 => { if run_left == 0 { run_left = 1 + rng.below(40); run_val = if rng.chance(1, 4) { rng.next() as u32 } else { rng.below(5) as u32 }; } run_left -= 1; run_val }
             _ => u32::MAX - rng.below(3) as u32 }).collect();
-        uintvector_case(&mut cx, &uv, false, false, &mut rng);
-        uintvector_case(&mut cx, &uv, true, false, &mut rng);
+        uintvector_case(&mut cx, &uv, false, false, &mut rng, 0);
+        uintvector_case(&mut cx, &uv, true, false, &mut rng, (i % 4) as u32);
         { let sp = *rng.pick(&[0usize, 1, 2, 63, 64, 65, n / 2, n.saturating_sub(1), n]); uintvector_mixed_case(&mut cx, &uv, sp); }
         // ZipIntVec
         { let ops = hist::gen_zip_history(&mut rng); if i < 2 { cx.sum.sample(json!({"zip_history": ops.iter().take(8).map(|(o, a)| json!([hist::ZIP_OPS[*o as usize], a.iter().take(4).collect::<Vec<_>>()])).collect::<Vec<_>>()})); } hist::zip_history(&mut cx, &ops); }
@@ -548,6 +566,8 @@ pub fn run(args: &Args) {
         let tu: Vec<i64> = tv.iter().map(|&x| (x as i32 as u32) as i64).collect();
         min0_typed_case(&mut cx, &tu, false, false);
     }
+    { let ok = zipora::memory::SecureMemoryPool::new(zipora::memory::SecurePoolConfig::small_secure()).ok().and_then(|p| std::sync::Arc::try_unwrap(p).ok()).is_some();
+      cx.sum.dist_max("sorted_with_pool_constructible", ok as u64); }
     cx.sum.dist_max("coq_cases", cx.shards.len() as u64);
     cx.sum.dist_max("coq_cases_min0", cx.n_min0_coq as u64);
     cx.sum.dist_max("coq_cases_sorted", cx.n_sorted_coq as u64);
